@@ -3280,10 +3280,13 @@ impl Fsm {
         F: 'static + FnMut() + Send,
     {
         if delay_ms > 0 {
-            Some(
-                self.timer
-                    .schedule_with_delay(chrono::Duration::milliseconds(delay_ms), cb),
-            )
+            // The timer computes "now + delay". A delay beyond the range of its calendar must not
+            // overflow there: it is cut to a time that is never reached while the session lives.
+            const MAX_DELAY_MS: i64 = 1000 * 365 * 24 * 60 * 60 * 1000;
+            Some(self.timer.schedule_with_delay(
+                chrono::Duration::milliseconds(delay_ms.min(MAX_DELAY_MS)),
+                cb,
+            ))
         } else {
             cb();
             None
